@@ -118,6 +118,15 @@ func (p *ProposerConfig) UnmarshalJSON(input []byte) error {
 		if err != nil {
 			return errors.Wrap(err, fmt.Sprintf("invalid account proposer %s", data.Proposer))
 		}
+		if proposer != data.Proposer {
+			// Anchors were added; they must apply to the expression as a whole
+			// rather than to the first and last alternative of an alternation.
+			proposer = fmt.Sprintf("^(?:%s)$", strings.TrimSuffix(strings.TrimPrefix(data.Proposer, "^"), "$"))
+			account, err = regexp.Compile(proposer)
+			if err != nil {
+				return errors.Wrap(err, fmt.Sprintf("invalid account proposer %s", data.Proposer))
+			}
+		}
 		p.Account = account
 	}
 	if data.FeeRecipient != "" {
